@@ -82,7 +82,7 @@ class DPT2ByteFloat(DPTNumeric):
                 msb |= 0x80
 
             return DPTArray((msb, mantisse & 0xFF))
-        except (ValueError, OverflowError) as err:
+        except (ValueError, TypeError, OverflowError) as err:
             raise ConversionError(
                 f"Could not serialize {cls.dpt_name()}", value=value
             ) from err
